@@ -183,6 +183,7 @@ def unquoteLoop : Nat → Bytes → Bytes → Bytes × Bytes
   | 0, str, res => (res, str)
   | fuel + 1, str, res =>
     if str = [] then (res, str)
+    else if str.head? = some 13 || str.head? = some 10 then (res, str)   -- a raw line break ends the literal (fix D11)
     else match unquoteChar str 34 with
       | none => (res, str)
       | some (ch, tail) =>
